@@ -395,6 +395,17 @@ def templates(w):
         yield 'const-twins', Op('==', t1, t2)
         yield 'const-twins', Op('^', ex.ExprCond(x, I(c1), y), ex.ExprCond(x, I(c2), y))
         yield 'const-twins', Op('^', Op('^', x, I(c1)), Op('^', y, I(c2)))
+    # 7g mask-then-shift and shift-then-mask with every small mask and count (rules that compare the mask with a power of two
+    # of the count have exactly one or two pairs on which a slip shows)
+    if w in (8, 32):
+        masks = range(256) if w == 8 else sorted(set([0, 1, 2, 3] + [(1 << k) + d for k in range(2, 14) for d in (-1, 0, 1)]))
+        counts = range(0, 9) if w == 8 else list(range(0, 14)) + [31, 32]
+        for m in masks:
+            for c in counts:
+                yield 'mask-shift-grid', Op('>>', Op('&', x, I(m)), I(c))
+                if m % 3 == 0:
+                    yield 'mask-shift-grid', Op('<<', Op('&', x, I(m)), I(c))
+                    yield 'mask-shift-grid', Op('&', Op('>>', x, I(c)), I(m))
     # 8 ==
     for c in few:
         yield 'eq', Op('==', Op('|', x, I(c)), I(0))
@@ -454,6 +465,26 @@ def slice_compose_templates():
             if d <= b - a:
                 yield 'slice-slice', Sl(Sl(x32, a, b), c, d)
                 yield 'slice-slice', Sl(Sl(Sl(x64, 8, 56), a, b), c, d)
+    # slices of one source that are consecutive in the source but separated (or reordered) in the composition: they must not be
+    # merged across the piece between them
+    for K in (I(0x5a, 8), y8, Sl(y32, 8, 16)):
+        yield 'compose-interleaved', Co([(Sl(x32, 0, 8), 0, 8), (K, 8, 16), (Sl(x32, 8, 16), 16, 24), (I(0x5a, 8), 24, 32)])
+        yield 'compose-interleaved', Co([(Sl(x32, 8, 16), 0, 8), (K, 8, 16), (Sl(x32, 0, 8), 16, 24), (y8, 24, 32)])
+        yield 'compose-interleaved', Co([(K, 0, 8), (Sl(x32, 0, 8), 8, 16), (y8, 16, 24), (Sl(x32, 8, 16), 24, 32)])
+        yield 'compose-interleaved', Co([(Sl(x32, 0, 8), 0, 8), (Sl(x32, 16, 24), 8, 16), (Sl(x32, 8, 16), 16, 24), (K, 24, 32)])
+        yield 'compose-interleaved', Co([(Sl(x64, 0, 16), 0, 16), (Sl(y32, 0, 16), 16, 32), (Sl(x64, 16, 32), 32, 48), (Sl(x64, 32, 48), 48, 64)])
+        yield 'compose-interleaved', Op('^', Co([(Sl(x32, 0, 8), 0, 8), (K, 8, 16), (Sl(x32, 8, 24), 16, 32)]), y32)
+    # compositions with the same first component and a different later one (and the reverse), as operands of one operator
+    a8, b8 = ex.ExprId('a8', 8), ex.ExprId('b8', 8)
+    for t1, t2 in ((a8, b8), (Sl(x32, 0, 8), Sl(x32, 8, 16)), (I(1, 8), I(2, 8)), (a8, Op('+', a8, I(1, 8)))):
+        c1, c2 = Co([(x8, 0, 8), (t1, 8, 16)]), Co([(x8, 0, 8), (t2, 8, 16)])
+        c3, c4 = Co([(x8, 0, 8), (y8, 8, 16), (t1, 16, 24), (a8, 24, 32)]), Co([(x8, 0, 8), (y8, 8, 16), (t2, 16, 24), (a8, 24, 32)])
+        for l_, r_ in ((c1, c2), (c3, c4)):
+            for o in ('^', '-', '|', '&', '+'):
+                yield 'compose-later-slot-twins', Op(o, l_, r_)
+            yield 'compose-later-slot-twins', Op('+', l_, Op('-', r_))
+            yield 'compose-later-slot-twins', Op('==', l_, r_)
+            yield 'compose-later-slot-twins', ex.ExprCond(Op('^', l_, r_), l_, r_)
     # slice of compose
     comp = Co([(x8, 0, 8), (y8, 8, 16), (x16, 16, 32)])
     comp2 = Co([(Sl(x32, 0, 16), 0, 16), (Sl(y32, 16, 32), 16, 32)])
